@@ -1,5 +1,6 @@
 import Driver.OpsBf3
 import Bec2Verif.Model.Text
+import Bec2Verif.Model.Entry
 open Bec2Verif Driver
 namespace Driver
 
@@ -47,10 +48,7 @@ def opBf3ReadText (path : Bool) : List String → String
   | [chk, k, t] =>
     match parseHex k, parseStr t with
     | some key, some s =>
-      let r := do
-        let (cm, bin) ← Text.parseText (if path then Text.universalNewlines s else s)
-        let comps ← Bf3.readBinary aesCrypto (chk == "1") key bin
-        pure (cm, comps)
+      let r := Entry.readBf3 aesCrypto (chk == "1") key (if path then Text.universalNewlines s else s)
       match r with
       | .ok (cm, comps) => "ok " ++ showComments cm ++ " " ++ showComps comps
       | .error e => "err " ++ e.name
